@@ -13,7 +13,7 @@
 (* each A_Cxx returns the antecedents that were exercised (vacuity control).*)
 (* aux carries the history-dependent ghosts (see Trace.tla / System.tla).   *)
 (***************************************************************************)
-EXTENDS EngineQ, FiniteSets, TLC
+EXTENDS Vm, FiniteSets
 
 Traders == {"tr1", "tr2", "tr3", "liq"}
 Vs(W) == DOMAIN W.vamm
@@ -51,6 +51,19 @@ SafeWorld(W) == \A v \in DOMAIN W.vamm : SafeVamm(W.vamm[v])
 PosOf(W, v, t) == W.eng.pos[v][t]
 Held(p) == p.exists /\ p.size # 0
 EngineVamm(W, v) == W.vamm[v].cfg.engine = "engine"
+
+\* Funding owed on a position according to the HISTORY: (current cumulative fraction - the fraction at
+\* the last time the position was charged) x size.  aux.chk is a ghost: it moves to the current
+\* fraction whenever the owner trades on / withdraws from / partially closes the position (the events
+\* the property lists), independently of the checkpoint the implementation stores.
+OwedG(aux, S, v, t, p) ==
+  IF v \in DOMAIN aux.chk /\ t \in DOMAIN aux.chk[v]
+  THEN SDiv((Cpf(S, v) - aux.chk[v][t]) * p.size, S.eng.cfg.D)
+  ELSE FundingOwed(S, v, p)
+RemainMarginG(aux, S, v, t, p, delta) ==
+  LET f == OwedG(aux, S, v, t, p)
+      rm == delta - f + p.margin
+  IN [funding |-> f, margin |-> IF rm < 0 THEN 0 ELSE rm, bad |-> IF rm < 0 THEN -rm ELSE 0]
 
 ----------------------------------------------------------------------------
 (* C01 -- vAMM curve conservation *)
@@ -123,12 +136,12 @@ V_C04(S, e, T, aux) ==
             t == e.tx.s
             p == PosOf(S, v, t)
         IN IF ~PosOf(T, v, t).exists
-           THEN LET equity == p.margin + ClosePnl(p, SwapQuote(e)) - FundingOwed(S, v, p)
+           THEN LET equity == p.margin + ClosePnl(p, SwapQuote(e)) - OwedG(aux, S, v, t, p)
                 IN Tag(equity >= 0, "C04.baddebt_close")
                    \cup Tag(equity < 0 \/ Sent(e, "engine", t) = equity, "C04.payout")
            ELSE LET upnl     == PnL(S, v, p, "spot")
                     realized == SDiv(upnl.pnl * SwapBase(e), Abs(p.size))
-                IN Tag(~upnl.ok \/ p.margin + realized - FundingOwed(S, v, p) >= 0,
+                IN Tag(~upnl.ok \/ p.margin + realized - OwedG(aux, S, v, t, p) >= 0,
                        "C04.baddebt_partial")
    ELSE {})
   \cup
@@ -166,7 +179,7 @@ V_C05(S, e, T, aux) ==
             t == e.tx.s
             p == PosOf(S, v, t)
             a == e.tx.a.amount
-            f == FundingOwed(S, v, p)
+            f == OwedG(aux, S, v, t, p)
         IN IF e.res.ok
            THEN LET fc == FreeCollateral(T, v, t)
                 IN Tag(~fc.ok \/ fc.val >= 0, "C05.freecoll")
@@ -177,7 +190,7 @@ V_C05(S, e, T, aux) ==
   \cup
   (IF EngOp(e, "withdraw_margin") /\ e.res.ok /\ e.tx.a.vamm \in Vs(S) /\ e.tx.s \in Traders
    THEN LET p == PosOf(S, e.tx.a.vamm, e.tx.s)
-        IN Tag(p.margin - e.tx.a.amount - FundingOwed(S, e.tx.a.vamm, p) >= 0, "C05.baddebt")
+        IN Tag(p.margin - e.tx.a.amount - OwedG(aux, S, e.tx.a.vamm, e.tx.s, p) >= 0, "C05.baddebt")
    ELSE {})
   \cup
   (IF EngOp(e, "deposit_margin") /\ e.res.ok /\ e.tx.a.vamm \in Vs(S) /\ e.tx.s \in Traders
@@ -210,7 +223,7 @@ V_C06(S, e, T, aux) ==
        IN Tag(~lr.ok \/ lr.val <= S.eng.cfg.mmr, "C06.onlyif")
           \cup Tag(Held(p), "C06.nopos")
           \cup (IF ~PosOf(T, v, t).exists
-                THEN LET rm == RemainMargin(S, v, p, ClosePnl(p, q))
+                THEN LET rm == RemainMarginG(aux, S, v, t, p, ClosePnl(p, q))
                          rest == IF fee > rm.margin THEN 0 ELSE rm.margin - fee
                      IN Tag(Sent(e, "engine", by) = fee, "C06.liqfee")
                         \cup Tag(Sent(e, "engine", "ifund") = rest, "C06.remaining")
@@ -252,11 +265,30 @@ LiqEnabled(S, e) ==
               IN /\ ~Bad(q) /\ q > 0
                  /\ q < vm.st.x \/ p.dir = "rem"
                  /\ S.bal["ifund"] >= 3 * (q + p.notional + p.margin + Abs(FundingOwed(S, v, p)))
+\* the same listed conditions, but with the insurance fund's sufficiency judged exactly: the fund
+\* "holds enough to cover any shortfall" iff the specification's own execution of this Liquidate
+\* (Vm.tla: every fund withdrawal, with the balances of the recorded pre-state) goes through
+LiqEnabledExact(S, e) ==
+  LET v == e.tx.a.vamm
+      t == e.tx.a.trader
+  IN /\ v \in Vs(S) /\ t \in Traders
+     /\ e.fault = 0 /\ e.tx.a.limit = 0
+     /\ S.eng.pos_extra = <<>>
+     /\ LET p  == PosOf(S, v, t)
+            vm == S.vamm[v]
+            lr == LiqRatio(S, v, t)
+        IN /\ Held(p)
+           /\ lr.ok /\ lr.val < S.eng.cfg.mmr
+           /\ vm.st.open /\ IsRegistered(S, v) /\ EngineVamm(S, v)
+           /\ S.eng.cfg.ifund = "ifund" /\ vm.cfg.D = S.eng.cfg.D
+           /\ S.eng.cfg.liqfee # 0
+           /\ CheckFluct(vm, S.blk.h, "add", 0, 0, TRUE) = "ok"
+     /\ RunTx(S, e.tx, 0).ok
 V_C07(S, e, T, aux) ==
-  IF EngOp(e, "liquidate") /\ ~e.res.ok /\ LiqEnabled(S, e) THEN {"C07.live"} ELSE {}
+  IF EngOp(e, "liquidate") /\ ~e.res.ok /\ (LiqEnabled(S, e) \/ LiqEnabledExact(S, e)) THEN {"C07.live"} ELSE {}
 A_C07(S, e, T, aux) ==
-  IF EngOp(e, "liquidate") /\ LiqEnabled(S, e)
-  THEN {"enabled"} \cup (IF S.eng.cfg.plr # 0 THEN {"plr_set"} ELSE {})
+  IF EngOp(e, "liquidate") /\ (LiqEnabled(S, e) \/ LiqEnabledExact(S, e))
+  THEN {"enabled"} \cup (IF ~LiqEnabled(S, e) THEN {"enabled_exact_fund"} ELSE {}) \cup (IF S.eng.cfg.plr # 0 THEN {"plr_set"} ELSE {})
        \cup (IF LiqRatio(S, e.tx.a.vamm, e.tx.a.trader).val < 0 THEN {"negative_ratio"} ELSE {})
        \cup (IF S.bal["engine"] < PosOf(S, e.tx.a.vamm, e.tx.a.trader).margin THEN {"vault_short"} ELSE {})
        \cup (IF S.feed.kind = "real" THEN {"real_feed"} ELSE {})
@@ -361,7 +393,7 @@ V_C11(S, e, T, aux) ==
             t == e.tx.s
             p == PosOf(S, v, t)
             p2 == PosOf(T, v, t)
-            f == FundingOwed(S, v, p)
+            f == OwedG(aux, S, v, t, p)
         IN Tag(~Held(p2) \/ p2.lupf = Cpf(T, v), "C11.checkpoint")
            \cup (IF e.tx.m = "open_position" /\ Held(p) /\ Len(e.swaps) = 1 /\ e.swaps[1].type = "input"
                     /\ (p.dir = "add") = (e.tx.a.side = "buy")
@@ -603,7 +635,7 @@ V_C18(S, e, T, aux) ==
    THEN LET rs == aux.subs[e.tx.a.key]      \* every accepted submission, from the history (ghost)
             real == 1..Len(rs)
         IN IF rs = <<>> THEN {} ELSE
-           CASE e.tx.m = "get_price" -> Tag(e.res.val.price = Last(rs).price, "C18.feed_latest")
+           CASE e.tx.m = "get_price" -> Tag(e.res.val.price = Last(rs).price /\ e.res.val.round_id = Len(rs), "C18.feed_latest")
              [] e.tx.m = "get_previous_price" ->
                   Tag(Len(rs) - e.tx.a.n < 1 \/ e.res.val.price = rs[Len(rs) - e.tx.a.n].price, "C18.feed_previous")
              [] e.tx.m = "get_twap_price" ->
@@ -690,7 +722,8 @@ AuxInit(W) ==
    lastq  |-> [ok |-> FALSE, c |-> "", q |-> "", dir |-> "", amount |-> 0, val |-> 0],
    upd    |-> [v \in Vs(W) |-> [t \in Traders |-> IF W.eng.pos[v][t].exists THEN W.eng.pos[v][t].blk ELSE 0]],
    subs   |-> [k \in DOMAIN W.feed.rounds |->
-                 LET rs == W.feed.rounds[k] IN SelectSeq(rs, LAMBDA r : r.id >= 1)]]
+                 LET rs == W.feed.rounds[k] IN SelectSeq(rs, LAMBDA r : r.id >= 1)],
+   chk    |-> [v \in Vs(W) |-> [t \in Traders |-> W.eng.pos[v][t].lupf]]]
 
 AuxNext(aux, S, e, T) ==
   [y0     |-> aux.y0,
@@ -713,7 +746,19 @@ AuxNext(aux, S, e, T) ==
                  ELSE IF EngOp(e, "liquidate") /\ e.res.ok /\ e.tx.a.vamm = v /\ e.tx.a.trader = t /\ ~T.eng.pos[v][t].exists
                  THEN 0
                  ELSE aux.upd[v][t]]],
+   chk    |-> [v \in Vs(T) |-> [t \in Traders |->
+                 IF e.kind = "tx" /\ e.tx.c = "engine" /\ e.res.ok /\ e.tx.s = t
+                    /\ e.tx.m \in {"open_position", "close_position", "withdraw_margin"} /\ e.tx.a.vamm = v
+                 THEN (IF T.eng.pos[v][t].exists THEN Cpf(T, v) ELSE 0)
+                 ELSE IF EngOp(e, "liquidate") /\ e.res.ok /\ e.tx.a.vamm = v /\ e.tx.a.trader = t /\ ~T.eng.pos[v][t].exists
+                 THEN 0
+                 ELSE aux.chk[v][t]]],
    subs   |-> IF Op(e, "feed", "append_price") /\ e.res.ok /\ S.feed.kind = "real" /\ e.tx.a.key \in DOMAIN aux.subs
               THEN [aux.subs EXCEPT ![e.tx.a.key] = Append(@, [id |-> Len(@) + 1, price |-> e.tx.a.price, t |-> e.tx.a.t])]
+              ELSE IF Op(e, "feed", "append_multiple_price") /\ e.res.ok /\ S.feed.kind = "real" /\ e.tx.a.key \in DOMAIN aux.subs
+              THEN LET old == aux.subs[e.tx.a.key]
+                       n == Len(e.tx.a.prices)
+                   IN [aux.subs EXCEPT ![e.tx.a.key] =
+                          old \o [i \in 1..n |-> [id |-> Len(old) + i, price |-> e.tx.a.prices[i], t |-> e.tx.a.ts[i]]]]
               ELSE aux.subs]
 =============================================================================
